@@ -1184,3 +1184,99 @@ func init() {
 		}
 	})
 }
+
+// ---- a row-major offset multiplies by the extent of the faster dimension (C09.16 / C01.19) ----
+//
+// linear = x*dims[k] + y, where x is a coordinate of dimension a (a sum over Start[a]) and y a coordinate of dimension b: k = b,
+// the dimension whose coordinate is added, not a. (row*dims[0] + col reads other elements of the same dataset whenever the
+// dataset is not square.)
+func rowMajorMultiplierRule(c *Ctx, r *Result, rule string, floor int) {
+	n := 0
+	for _, fn := range c.LibFuncs() {
+		if shortPkg(fnPkgPath(fn)) != "hdf5" || fn.Blocks == nil {
+			continue
+		}
+		dimOf := func(v ssa.Value) (string, bool) {
+			// the coordinate's dimension: the index of the Start element in its sum
+			var found string
+			var walk func(v ssa.Value, d int)
+			walk = func(v ssa.Value, d int) {
+				if d > 6 || found != "" {
+					return
+				}
+				if ref, ok := selFieldRef(v); ok && ref.field == "Start" {
+					found = ref.idx
+					return
+				}
+				if bo, ok := stripConv(v).(*ssa.BinOp); ok && (bo.Op == token.ADD || bo.Op == token.SUB) {
+					walk(bo.X, d+1)
+					walk(bo.Y, d+1)
+				}
+			}
+			walk(v, 0)
+			return found, found != ""
+		}
+		k := 0
+		instrs(fn, func(in ssa.Instruction) {
+			add, ok := in.(*ssa.BinOp)
+			if !ok || add.Op != token.ADD {
+				return
+			}
+			for _, pair := range [][2]ssa.Value{{add.X, add.Y}, {add.Y, add.X}} {
+				mul, isMul := stripConv(pair[0]).(*ssa.BinOp)
+				if !isMul || mul.Op != token.MUL {
+					continue
+				}
+				dy, okY := dimOf(pair[1])
+				if !okY {
+					continue
+				}
+				for _, f := range [][2]ssa.Value{{mul.X, mul.Y}, {mul.Y, mul.X}} {
+					if _, okX := dimOf(f[0]); !okX {
+						continue
+					}
+					// the other factor: an element of a dims-like sequence with a constant index
+					u, isU := stripConv(f[1]).(*ssa.UnOp)
+					if !isU || u.Op != token.MUL {
+						continue
+					}
+					ia, isIA := u.X.(*ssa.IndexAddr)
+					if !isIA {
+						continue
+					}
+					kk, isK := constInt(ia.Index)
+					if !isK {
+						continue
+					}
+					n++
+					k++
+					r.Check(fmt.Sprint(kk) == dy, rule, fmt.Sprintf("%s#row-major-offset-%d", c.Name(fn), k), c.InstrPos(add), fmt.Sprintf("the coordinate of dimension %s is added to a coordinate multiplied by the extent of dimension %d", dy, kk))
+				}
+			}
+		})
+	}
+	if n < floor {
+		r.Shortfall(c, rule, fmt.Sprintf("%s: only %d row-major offsets over selection coordinates found (expected >= %d)", rule, n, floor))
+	}
+}
+
+func init() {
+	txt := "a row-major offset multiplies by the extent of the faster dimension: in x*dims[k] + y over two selection coordinates, k is the dimension of y (row*dims[0] + col instead of row*dims[1] + col reads other elements whenever the dataset is not square)"
+	registry["C09"].Meta.Rules["C09.16"] = txt
+	registry["C09"].Rules = append(registry["C09"].Rules, func(c *Ctx, r *Result) { rowMajorMultiplierRule(c, r, "C09.16", 1) })
+	registry["C01"].Meta.Rules["C01.19"] = txt + " (shared with C09.16)"
+	registry["C01"].Rules = append(registry["C01"].Rules, func(c *Ctx, r *Result) { rowMajorMultiplierRule(c, r, "C01.19", 1) })
+	registry["C01"].Meta.Rules["C01.20"] = registry["C11"].Meta.Rules["C11.15"] + " (shared with C11.15: a two-byte entry count of the chunk index read as one byte loses every chunk beyond 255)"
+	registry["C01"].Rules = append(registry["C01"].Rules, func(c *Ctx, r *Result) {
+		total := 0
+		for _, p := range layoutPairs {
+			if c.FnOpt(p[1]) == nil || c.FnOpt(p[2]) == nil {
+				continue
+			}
+			total += layoutAgreementRule(c, r, "C01.20", p[0], p[1], p[2])
+		}
+		if total < 6 {
+			r.Shortfall(c, "C01.20", fmt.Sprintf("C01.20: only %d fields compared over all pairs", total))
+		}
+	})
+}
